@@ -13,6 +13,9 @@
     text up to length 6-7 over five alphabets that spell every word, with every buffer read in bounds; the real Finder is run on the
     same texts (3 widths, exact-size buffers, ASan) and on texts glued from word fragments, and TLC (OracleFinder) judges every
     recorded match sequence.
+(T) spec/QTagTree.tla: what the renderer trusts about a parsed tag tree (records of a container lie one after the other inside the
+    container's text range; the ranges of loop contents, <if> cases, super-variable and inline-if texts lie inside their record);
+    TLC (OracleTagTree) checks it on the tree the real scanner built for every generated text.
 (B1) code -> spec (E4, hook H2): the real scanner reports its complete projected state before every dispatched token; TLC
     (TraceQTemplateParse) accepts a step only if the model has a transition for that token from the logged state to the state
     logged next, and evaluates the invariants in every recorded state.
@@ -83,10 +86,20 @@ def validate_traces(c, xasan, inp, cases):
     p = os.path.join(c.out, "parse.ndjson")
     crashes = walk.run_cases(c, xasan, "parse", inp, p, "template-any-text", max_restarts=60)
     per = collections.OrderedDict()
-    with open(p) as f:
+    ft = os.path.join(c.out, "tagtrees.ndjson")
+    nfinal = 0
+    with open(p) as f, open(ft, "w") as g:
         for ln in f:
+            if ln.startswith('{"final"'):      # the finished tag tree of the case: judged by OracleTagTree
+                g.write(ln)
+                nfinal += 1
+                continue
             per.setdefault(int(ln[5:ln.index(",")]), []).append(ln)
     os.remove(p)
+    if nfinal:
+        c.oracle("OracleTagTree", ft, "OracleTagTree", lambda e: "template-tag-tree not well-formed (a record outside its range / out of order): template=%r tree=%s" % (
+            cases[e["c"]][0][:200], json.dumps(e["tree"])[:300]), timeout=3000, xmx="16g", xss="256m")
+    os.remove(ft)
     cap = 60 if c.thorough else 24
     sel = [k for k in per if len(per[k]) <= cap]
     nchunks = 16
